@@ -228,6 +228,10 @@ pub struct Actor {
     /// every read of the clock by the code under test is a scheduling point (a boundary
     /// labelled "clock"): whoever reads the time may have been stalled just before
     pub clock_yields: Cell<bool>,
+    /// the simulated process's working directory, relative to the sandbox root ("" = the
+    /// root itself): relative paths given to the file-system calls are resolved against it,
+    /// and getcwd() reports it
+    pub cwd: RefCell<String>,
     allocs: Cell<u64>,
     next_preempt: Cell<u64>,
     fds: RefCell<Vec<c_int>>,
@@ -295,6 +299,7 @@ impl Actor {
             world,
             ghost: Cell::new(false),
             clock_yields: Cell::new(false),
+            cwd: RefCell::new(String::new()),
             allocs: Cell::new(0),
             next_preempt: Cell::new(u64::MAX),
             fds: RefCell::new(Vec::new()),
@@ -821,10 +826,72 @@ macro_rules! sys {
 }
 
 // ---------------------------------------------------------------------------------------
+// per-actor working directory
+// ---------------------------------------------------------------------------------------
+
+/// The path to hand to the kernel when the calling actor has a working directory of its own
+/// and `p` is relative to the (process-wide, real) current directory.
+unsafe fn virt(dirfd: c_int, p: *const c_char) -> Option<std::ffi::CString> {
+    if dirfd != libc::AT_FDCWD || p.is_null() {
+        return None;
+    }
+    let a = cur()?;
+    let _g = HarnessGuard::new();
+    let pre = a.cwd.borrow();
+    if pre.is_empty() {
+        return None;
+    }
+    let s = std::ffi::CStr::from_ptr(p).to_bytes();
+    if s.first() == Some(&b'/') {
+        return None;
+    }
+    let mut v = Vec::with_capacity(pre.len() + 1 + s.len());
+    v.extend_from_slice(pre.as_bytes());
+    v.push(b'/');
+    v.extend_from_slice(s);
+    std::ffi::CString::new(v).ok()
+}
+
+macro_rules! virt_path {
+    ($d:expr, $p:ident) => {
+        let __hold = virt($d, $p);
+        let $p: *const c_char = match &__hold {
+            Some(c) => c.as_ptr(),
+            None => $p,
+        };
+    };
+}
+
+#[no_mangle]
+pub unsafe extern "C" fn getcwd(buf: *mut c_char, size: size_t) -> *mut c_char {
+    if let Some(a) = cur() {
+        let _g = HarnessGuard::new();
+        let pre = a.cwd.borrow();
+        if !pre.is_empty() && !buf.is_null() {
+            let full = format!("{}/{}", root(), pre);
+            if full.len() + 1 > size {
+                *libc::__errno_location() = libc::ERANGE;
+                return std::ptr::null_mut();
+            }
+            std::ptr::copy_nonoverlapping(full.as_ptr() as *const c_char, buf, full.len());
+            *buf.add(full.len()) = 0;
+            return buf;
+        }
+    }
+    let r = sys!(libc::SYS_getcwd, buf, size);
+    if r < 0 {
+        std::ptr::null_mut()
+    } else {
+        buf
+    }
+}
+
+// ---------------------------------------------------------------------------------------
 // storage: open family
 // ---------------------------------------------------------------------------------------
 
 unsafe fn do_open(dirfd: c_int, path: *const c_char, flags: c_int, mode: mode_t) -> c_int {
+    virt_path!(dirfd, path);
     let raw = |p: *const c_char| sys!(libc::SYS_openat, dirfd, p, flags, mode as c_uint);
     let a = match cur() {
         Some(a) => a,
@@ -1142,6 +1209,7 @@ unsafe fn path_call2(
 
 #[no_mangle]
 pub unsafe extern "C" fn truncate64(path: *const c_char, len: off_t) -> c_int {
+    virt_path!(libc::AT_FDCWD, path);
     path_call1(OpKind::Truncate, libc::AT_FDCWD, path, len as usize, 0, &mut || {
         sys!(libc::SYS_truncate, path, len)
     }) as c_int
@@ -1172,6 +1240,8 @@ pub unsafe extern "C" fn renameat2(
     new: *const c_char,
     flags: c_uint,
 ) -> c_int {
+    virt_path!(d1, old);
+    virt_path!(d2, new);
     path_call2(OpKind::Rename, d1, old, d2, new, flags as c_int, &mut || {
         sys!(libc::SYS_renameat2, d1, old, d2, new, flags)
     }) as c_int
@@ -1189,6 +1259,8 @@ pub unsafe extern "C" fn linkat(
     new: *const c_char,
     flags: c_int,
 ) -> c_int {
+    virt_path!(d1, old);
+    virt_path!(d2, new);
     path_call2(OpKind::Link, d1, old, d2, new, flags, &mut || {
         sys!(libc::SYS_linkat, d1, old, d2, new, flags)
     }) as c_int
@@ -1200,6 +1272,7 @@ pub unsafe extern "C" fn unlink(path: *const c_char) -> c_int {
 }
 #[no_mangle]
 pub unsafe extern "C" fn unlinkat(d: c_int, path: *const c_char, flags: c_int) -> c_int {
+    virt_path!(d, path);
     let kind = if flags & libc::AT_REMOVEDIR != 0 {
         OpKind::Rmdir
     } else {
@@ -1219,6 +1292,7 @@ pub unsafe extern "C" fn mkdir(path: *const c_char, mode: mode_t) -> c_int {
 }
 #[no_mangle]
 pub unsafe extern "C" fn mkdirat(d: c_int, path: *const c_char, mode: mode_t) -> c_int {
+    virt_path!(d, path);
     path_call1(OpKind::Mkdir, d, path, 0, 0, &mut || {
         sys!(libc::SYS_mkdirat, d, path, mode as c_uint)
     }) as c_int
@@ -1233,18 +1307,21 @@ pub unsafe extern "C" fn symlinkat(
     d: c_int,
     linkpath: *const c_char,
 ) -> c_int {
+    virt_path!(d, linkpath);
     path_call1(OpKind::Symlink, d, linkpath, 0, 0, &mut || {
         sys!(libc::SYS_symlinkat, target, d, linkpath)
     }) as c_int
 }
 #[no_mangle]
 pub unsafe extern "C" fn chmod(path: *const c_char, mode: mode_t) -> c_int {
+    virt_path!(libc::AT_FDCWD, path);
     path_call1(OpKind::Chmod, libc::AT_FDCWD, path, 0, mode as c_int, &mut || {
         sys!(libc::SYS_fchmodat, libc::AT_FDCWD, path, mode as c_uint)
     }) as c_int
 }
 #[no_mangle]
 pub unsafe extern "C" fn fchmodat(d: c_int, path: *const c_char, mode: mode_t, fl: c_int) -> c_int {
+    virt_path!(d, path);
     let _ = fl;
     path_call1(OpKind::Chmod, d, path, 0, mode as c_int, &mut || {
         sys!(libc::SYS_fchmodat, d, path, mode as c_uint)
@@ -1277,6 +1354,7 @@ pub unsafe extern "C" fn statx(
     mask: c_uint,
     buf: *mut libc::statx,
 ) -> c_int {
+    virt_path!(dirfd, path);
     let raw = || sys!(libc::SYS_statx, dirfd, path, flags, mask, buf);
     let a = match cur() {
         Some(a) => a,
@@ -1300,6 +1378,7 @@ unsafe fn stat_common(
     buf: *mut libc::stat,
     flags: c_int,
 ) -> c_int {
+    virt_path!(dirfd, path);
     path_call1(OpKind::Stat, dirfd, path, 0, flags, &mut || {
         sys!(libc::SYS_newfstatat, dirfd, path, buf, flags)
     }) as c_int
